@@ -421,7 +421,7 @@ impl Property for C04 {
         }
     }
     fn random_cases(&self, tier: Tier) -> u64 {
-        tier.pick(20_000, 300_000)
+        tier.pick(200_000, 1_000_000)
     }
     fn tape_len(&self, _t: Tier) -> usize {
         32
